@@ -165,7 +165,7 @@ func (server *Server) registerSugarExecutors() {
 	server.RegisterExexutor("STRLEN", func(conn *Conn, cmd string, args Arguments) (*Message, error) {
 		getRet, err := server.executeCommand(conn, "GET", args)
 		if err != nil {
-			return NewIntegerMessage(0), nil
+			return nil, err
 		}
 		getVal, err := getRet.String()
 		if err != nil {
@@ -183,7 +183,7 @@ func (server *Server) registerSugarExecutors() {
 	server.RegisterExexutor("HEXISTS", func(conn *Conn, cmd string, args Arguments) (*Message, error) {
 		getRet, err := server.executeCommand(conn, "HGET", args)
 		if err != nil {
-			return NewIntegerMessage(0), nil
+			return nil, err
 		}
 		_, err = getRet.String()
 		if err != nil {
